@@ -15,4 +15,5 @@ import (
 	_ "verif/props/c11"
 	_ "verif/props/c12"
 	_ "verif/props/c13"
+	_ "verif/props/c14"
 )
